@@ -107,6 +107,12 @@ def check(arr, store, content_bytes=None, exempt_pos=(), exempt_parity=(), check
                         kind, seed = c.prevhash
                     want = hashes.memhash(kind, seed, data[i * bs:(i + 1) * bs])[:hs]
                     stats["blocks_hashed"] += 1
+                    if st == REP and want != h and c.prevhash and c.prevhash[0] is not None:
+                        # a copy-detected block carries the hash of its source as it was when the copy was detected: during a
+                        # hash migration that may be the previous kind (the tool verifies it with the kind its stripe's flag says)
+                        pk, ps = c.prevhash
+                        if hashes.memhash(pk, ps, data[i * bs:(i + 1) * bs])[:hs] == h:
+                            continue
                     if want != h and pos not in exempt_pos:
                         problems.append("disk %s file %r block %d (pos %d, %s): recorded hash %s is not the hash of the recorded version (%s)" % (
                             dn, f.sub, i, pos, st, h.hex(), want.hex()))
